@@ -48,6 +48,9 @@ deriving Repr, DecidableEq
 structure ModelData (α : Type) where
   name : String
   nInputs : Nat
+  /-- number of output variables of the model TYPE (`len(Description().Outputs)`): the second extent of the `Outputs`
+  array `modelGeneration.Run` allocates; `LINK_SRC_VAR` of a link must lie below it (`ValidGraph`) -/
+  nOutputs : Nat
   batches : List Nat
   params : List (List α)
   states : List (List α)
@@ -94,7 +97,7 @@ abbrev Result (α : Type) := List (ModelOut α)
 
 variable {α : Type}
 
-def emptyModel : ModelData α := ⟨"", 0, [], [], [], none⟩
+def emptyModel : ModelData α := ⟨"", 0, 0, [], [], [], none⟩
 
 def Graph.model (g : Graph α) (m : Nat) : ModelData α := g.models.getD m emptyModel
 
@@ -291,12 +294,25 @@ def processLinksFrom [Num α] (g : Graph α) (i : Nat) : List Link → SimState 
 def processLinks [Num α] (g : Graph α) (i : Nat) (s : SimState α) : SimState α :=
   processLinksFrom g i (g.links.drop s.nextLink) s
 
-/-- `WriteData(generation)` for one model -/
+/-- what the output file "holds" for a row whose write killed the process with a nil-pointer panic: like a kernel panic
+(`Row.err`, printed by the driver as `panic nil`), never a default value -/
+def crashRow : Row α := ⟨none, none, [], some "nil"⟩
+
+/-- `WriteData(generation)` for one model. A generation that has NOT run (`Outputs == nil`) is not skipped silently:
+Go dereferences the nil `Outputs` (see the branch); only a never-run generation of a model whose outputs are already
+initialised and not requested is written without touching `Outputs`. Under a protocol-respecting schedule (`write g`
+after `run g`) the branch is dead (`OW/Proofs/SimGraph.lean: writeData_final`). -/
 def writeData [Num α] (g : Graph α) (gen : Nat) (s : SimState α) (m : Nat) : SimState α :=
   let md := g.model m
   let (s, d) := getGeneration g s m gen
   if d.count = 0 then s
-  else if !(s.initialised m) && !d.ran then s   -- `gen.Outputs.Len(0) > 0` is false only for a generation that never ran
+  else if !d.ran && (!(s.initialised m) || writeOutputs g md) then
+    -- `gen.Outputs` is nil until `Run`: `gen.Outputs.Len(0)` (outputs not yet initialised) resp. `WriteSlice(gen.Outputs, …)`
+    -- → `data.Shape()` (outputs requested) dereference a nil interface: the process dies (panic class "nil")
+    let loc := startOf md.batches gen
+    { s with
+      initialised := upd s.initialised m true
+      file := fun m' r => if m' = m ∧ loc ≤ r ∧ r < loc + d.count then some crashRow else s.file m' r }
   else
     let loc := startOf md.batches gen
     { s with
@@ -380,14 +396,33 @@ instance : (ls : List Link) → Decidable (SortedLinks ls)
     have := instDecidableSortedLinks rest
     by unfold SortedLinks; infer_instance
 
+/-- shape well-formedness of one model's datasets: `parameters` has one column and `states` one row per node
+(`[nParameters, N]`, `[N, nStates]`), a stored `inputs` dataset is `[N, nInputs, T]`. The model reads them with
+`getD r []`; Go slices the datasets and dies on a short one. -/
+def ShapeOk (g : Graph α) (md : ModelData α) : Prop :=
+  md.params.length = totalOf md.batches ∧ md.states.length = totalOf md.batches ∧
+  match md.inputs with
+  | some ins => ins.length = totalOf md.batches ∧ ∀ row ∈ ins, row.length = md.nInputs ∧ ∀ ser ∈ row, ser.length = g.T
+  | none => True
+instance (g : Graph α) (md : ModelData α) : Decidable (ShapeOk g md) := by
+  unfold ShapeOk; cases md.inputs <;> infer_instance
+
 /-- a valid model-graph file: at least one generation; every model has one cumulative (non-decreasing) batch count per
 generation; links sorted by source generation; every link goes to a strictly later generation and its indices are in
-range and consistent (global node = start of its generation + node within the generation) -/
+range and consistent (global node = start of its generation + node within the generation); and what the Go code needs
+beyond that (the list-based model would silently read `[]`, Go panics or races):
+* model names pairwise different — Go keys `models` by NAME (`map[string]*modelReference`): two entries of /META/models
+  with one name share one `*modelGeneration`, run by two goroutines;
+* `srcVar` of every link names an output variable of its source model type (`LinkOk` bounds `destVar` only);
+* every dataset has the shape the batches and the model type prescribe (`ShapeOk`). -/
 def ValidGraph (g : Graph α) : Prop :=
   1 ≤ g.genCount ∧
   (∀ m, m < g.models.length → (g.model m).batches.length = g.genCount ∧ MonoBatches (g.model m).batches) ∧
   SortedLinks g.links ∧
-  (∀ l ∈ g.links, LinkOk g l)
+  (∀ l ∈ g.links, LinkOk g l) ∧
+  (g.models.map (·.name)).Nodup ∧
+  (∀ l ∈ g.links, l.srcVar < (g.model l.srcModel).nOutputs) ∧
+  (∀ md ∈ g.models, ShapeOk g md)
 instance (g : Graph α) : Decidable (ValidGraph g) := by unfold ValidGraph; infer_instance
 
 end OW.Sim
